@@ -1,13 +1,23 @@
 ENGINES = [
     {"name": "gridmc", "path": "mc/checks", "serves_properties": ["C18"],
      "kind_free_text": "exhaustive enumeration of finite option lattices / member lists crossed with small branch-covering data alphabets, each point compared with an oracle independent of REBOUND"},
-    {"name": "histmc", "path": "mc/histmc.py", "serves_properties": ["C14"],
+    {"name": "histmc", "path": "mc/histmc.py", "serves_properties": ["C05", "C14"],
      "kind_free_text": "explicit-state breadth-first exploration of operation histories on the real library object (state = history, canonical digest de-duplication, reference-model oracle on every transition)"},
 ]
 NOTES = ("All checks explore the real implementation rebuilt from /repo's working tree (mc/build.py); no abstract model is used, "
          "so traces_validated_against_impl equals the number of executed transitions. known_findings.json lists repaired defects (fixed:) and recorded ones.")
 NOT_APPLICABLE = {}
 CHECKS = {
+    "C05": {
+        "engine": "histmc", "category": "model_checking",
+        "technique": "exhaustive enumeration of save points (option lattice x operation histories up to a depth) on the real library, each restored and continued in lock-step with the original; plus exhaustive single-field lattice",
+        "text": "For every point of the documented integrator option lattice (WHFast kernels x correctors x corrector2 x coordinates x safety modes, 18 SABA types, 81 EOS splittings, IAS15 modes, JANUS orders, BS, MERCURIUS L x r_crit, TRACE peri modes) "
+                "x test-particle setting x direction, and module variations (compensated/tree gravity, direct/line/tree collisions, open/periodic boundary, variational 1st/2nd order, MEGNO), every history over "
+                "{step, steps(3), synchronize, add, remove, edit-last-particle} up to depth 2 (quick) / 4 (thorough) is a save point. Each is saved via memory stream, file, pickle and as an appended delta, restored, and checked: "
+                "save(load(save)) field-identical; every persisted scalar equal at its true DWARF offset; every user-settable member equal; original and restored continued 1,2,5 steps bit-identical in particles, t, dt and then in every persisted field. "
+                "Independently every user-settable scalar member is set to a non-default value and round-tripped.",
+        "note": "Callbacks re-attached by the harness; scratch members of p_jh records (ax..az, m, r, last_collision, hash) are masked because they are never initialised; with a tree, particle arrays are compared as multisets (tree re-orders by design).",
+    },
     "C18": {
         "engine": "gridmc", "category": "exploration",
         "technique": "exhaustive enumeration of a finite space: every leaf member of every mirrored C structure (DWARF) against the ctypes field at the same offset, and every named option value",
